@@ -973,6 +973,16 @@ func (env *SpecEnv) evalCall(e *Expr) (Val, error) {
 			return Val{}, err
 		}
 		return Val{T: ifTag(a.T)}, nil
+	case "ref":
+		// ref(x): the object an interface value points to (its value part), or a pointer itself
+		a, err := env.eval(e.Args[0])
+		if err != nil {
+			return Val{}, err
+		}
+		if a.T != nil && a.T.Sort == SIface {
+			return Val{T: ifVal(a.T)}, nil
+		}
+		return Val{T: a.T}, nil
 	case "allocated":
 		a, err := env.eval(e.Args[0])
 		if err != nil {
